@@ -103,6 +103,38 @@ where
     }
 }
 
+#[cfg(feature = "verif")]
+impl<T> Table<T>
+where
+    T: Default,
+{
+    /// Create a new table of size `2^bits` with `2^bucket_bits` buckets.
+    pub fn with_bucket_bits(bits: usize, bucket_bits: usize) -> Self {
+        assert!(bucket_bits <= 31, "Bucket bits must be in the range 0..=31");
+        let mut table = Self::new(bits);
+        let buckets_size = 1 << bucket_bits;
+        table.buckets = vec![0; buckets_size];
+        table.bitmask = (buckets_size - 1) as u64;
+        table
+    }
+}
+
+#[cfg(feature = "verif")]
+impl<T> Table<T> {
+    /// Index of the first possibly free cell.
+    pub fn min_free(&self) -> usize {
+        self.min_free
+    }
+    /// Raw view of a cell (any index, including 0): (occupied, next).
+    pub fn cell_flags(&self, index: usize) -> (bool, usize) {
+        (self.data[index].occupied(), self.data[index].next())
+    }
+    /// Raw view of the value stored in a cell (any index, including 0).
+    pub fn cell_value(&self, index: usize) -> &T {
+        self.data[index].value()
+    }
+}
+
 impl<T> Table<T> {
     /// Get the capacity of the table.
     pub fn capacity(&self) -> usize {
